@@ -57,7 +57,7 @@ def san_closure(d, s):
             return "|mut s: String| { s.push('A'); s }"
         if fn == "take2":
             return "|s: String| s.chars().take(2).collect::<String>()"
-    if fam == "any" and d.get("ty") == "Point":
+    if fam == "any" and d.get("ty") in ("Point", "Gen<Point>"):
         if fn == "rev":
             return "|p: Point| Point(p.1, p.0)"
     if fam == "any" and d.get("ty") == "Cow<[i32]>":
@@ -114,7 +114,7 @@ def pred_closure(d, r):
             return "|s| s.contains('a')"
         if fn == "ascii":
             return "|s| s.is_ascii()"
-    if fam == "any" and d.get("ty") == "Point":
+    if fam == "any" and d.get("ty") in ("Point", "Gen<Point>"):
         if fn == "sorted":
             return "|p| p.0 <= p.1"
     if fam == "any":
@@ -269,7 +269,7 @@ def default_src(d):
         return val_src(d, v)
     if d["fam"] == "string":
         return rust_str(v) + ".to_string()" if False else rust_str(v)
-    if d["fam"] == "any" and d.get("ty") == "Point":
+    if d["fam"] == "any" and d.get("ty") in ("Point", "Gen<Point>"):
         return "Point(%d, %d)" % (v[0], v[1])
     if d["fam"] == "any" and d.get("ty") == "Cow<[i32]>":
         return "::std::borrow::Cow::Borrowed(&[%s])" % ", ".join(str(x) for x in v)
@@ -314,8 +314,10 @@ def render_decl_only(d):
     """items + the #[nutype] declaration itself (no driver)."""
     if d.get("decl_override"):
         return d["decl_override"]
-    if d.get("ty") == "Point":
+    if d.get("ty") in ("Point", "Gen<Point>"):
         items, attrs = render_attrs(d)
+        if d.get("ty") == "Gen<Point>":      # the bare type parameter as inner type, used at T = Point
+            return POINT_ITEMS + "\n".join(items) + "\n#[nutype(\n    %s\n)]\npub struct Nt<T>(T);\n" % attrs
         return POINT_ITEMS + "\n".join(items) + "\n#[nutype(\n    %s\n)]\npub struct Nt(Point);\n" % attrs
     items, attrs = render_attrs(d)
     gen = d.get("gen_decl", "")
